@@ -35,6 +35,8 @@ def __i{name}__(self, other):
             other_rows = [SparseVector.from_dict({{i: 1. for i in row.set}}, row.size) for row in other_rows]
         if len(other_rows) == 1:
             other = other_rows[0]
+            for i in rows:
+                if i is other: other = other.copy(); break # operand is a row of the target
             for i in rows: i._i{name}_sparse(other)
         else:
             for i, j in zip(rows, other_rows): i._i{name}_sparse(j)
@@ -46,6 +48,8 @@ def __i{name}__(self, other):
                 raise ValueError('cannot cast boolean to float')
         elif other_dtype is bool:
             other = SparseVector.from_dict({{i: 1. for i in other.set}}, other.size)
+        for i in self.rows:
+            if i is other: other = other.copy(); break # operand is a row of the target
         for i in self.rows: i._i{name}_sparse(other) 
     else:
         other, ndim, _ = reduce_ndim(other)
